@@ -163,6 +163,20 @@ ApiSetLen(p, sp, n) ==
        ELSE IF KindOf(p, id) # P!KStream THEN Err(p, "InvalidInput")
        ELSE Ok(P!SetLen(p, id, n), "unit")
 
+(* lookups that can be refused (only the kind of the answer is modelled here: the listings themselves are CfbTree's) *)
+ApiResolve(p, sp, needStream, needStorage) ==
+  LET nc == Normalize(sp) IN
+  IF ~nc.ok THEN Err(p, "InvalidInput")
+  ELSE LET id == Lookup(p, nc.names) IN
+       IF id = NO THEN Err(p, "NotFound")
+       ELSE IF needStream /\ KindOf(p, id) # P!KStream THEN Err(p, "InvalidInput")
+       ELSE IF needStorage /\ KindOf(p, id) = P!KStream THEN Err(p, "InvalidInput")
+       ELSE Ok(p, "unit")
+ApiEntry(p, sp)       == ApiResolve(p, sp, FALSE, FALSE)
+ApiOpenStream(p, sp)  == ApiResolve(p, sp, TRUE, FALSE)
+ApiReadStorage(p, sp) == ApiResolve(p, sp, FALSE, TRUE)
+ApiWalkStorage(p, sp) == ApiResolve(p, sp, FALSE, FALSE)
+
 (* lookups *)
 ApiExists(p, sp)    == LET nc == Normalize(sp) IN Ok(p, nc.ok /\ Lookup(p, nc.names) # NO)
 ApiIsStream(p, sp)  == LET nc == Normalize(sp) IN
